@@ -1988,6 +1988,9 @@ func decodeExtendedIpv6TunnelEgress(data *[]byte) (SFlowExtendedIpv6TunnelEgress
 	rec := SFlowExtendedIpv6TunnelEgressRecord{}
 	var fdf SFlowFlowDataFormat
 
+	if len(*data) < 64 {
+		return rec, errors.New("extended IPv6 tunnel egress record too small")
+	}
 	*data, fdf = (*data)[4:], SFlowFlowDataFormat(binary.BigEndian.Uint32((*data)[:4]))
 	rec.EnterpriseID, rec.Format = fdf.decode()
 	*data, rec.FlowDataLength = (*data)[4:], binary.BigEndian.Uint32((*data)[:4])
